@@ -1,4 +1,5 @@
 import ScrapliModel.Auth
+import ScrapliModel.Channel.Ansi
 open Scrapli Scrapli.Auth
 
 def parseLoop : String → Option Loop
@@ -11,9 +12,9 @@ def parseLoop : String → Option Loop
 /-- c: BaseChannelArgs() directly (field defaults); d: channel built by a driver (fallback patterns) with the
     BaseChannelArgs prompt pattern; g: GenericDriver with all its defaults -/
 def parseCfg : String → Option (Loop → Nat → Cfg)
-  | "c" => some fun l ivl => defaultCfg l Gen.Auth.chanPrompt ivl
-  | "d" => some fun l ivl => driverCfg l Gen.Auth.chanPrompt ivl
-  | "g" => some fun l ivl => driverCfg l Gen.Auth.genericPrompt ivl
+  | "c" => some fun l ivl => defaultCfgC l Gen.Auth.chanPrompt ivl Scrapli.Chan.chanReadH
+  | "d" => some fun l ivl => driverCfgC l Gen.Auth.chanPrompt ivl Scrapli.Chan.chanReadH
+  | "g" => some fun l ivl => driverCfgC l Gen.Auth.genericPrompt ivl Scrapli.Chan.chanReadH
   | _ => none
 
 /-- `E` = read raised ScrapliConnectionError; `<hex>@<t>` = read returned the bytes at elapsed time t -/
@@ -59,6 +60,15 @@ def handleLine (line : String) : String :=
         ++ bit (Gen.Auth.chanPrompt.search b) ++ bit (Gen.Auth.genericPrompt.search b) ++ bit (fatalMsg b)
         ++ bit (driverP .username b) ++ bit (driverP .password b) ++ bit (driverP .passphrase b)
     | none => "bad-op"
+  | ["predb", flags, needle, h] =>
+    -- a synthetic credential branch: flags = three bits bol dotstar tail
+    match flags.toList, Hex.decode needle, Hex.decode h with
+    | [b, d, t], some n, some buf => bit ((⟨b == '1', d == '1', n, t == '1'⟩ : Branch).search buf)
+    | _, _, _ => "bad-op"
+  | ["predp", head, lo, hi, last, trail, h] =>
+    match Hex.decode head, lo.toNat?, hi.toNat?, Hex.decode last, trail.toNat?, Hex.decode h with
+    | some hd, some lo, some hi, some la, some tr, some buf => bit ((⟨hd, lo, hi, la, tr⟩ : PromptPat).search buf)
+    | _, _, _, _, _, _ => "bad-op"
   | _ => "bad-op"
 
 partial def loop (h : IO.FS.Stream) : IO Unit := do
